@@ -337,7 +337,7 @@ theorem C03_stream (fuel : Nat) (rs : List Spec.AbsResp) (tl : Bytes) (term : Te
 theorem C03_async (fuel : Nat) (rs : List Spec.AbsResp) (chunks : List Bytes) (term : Term)
     (hwf : ∀ r ∈ rs, Spec.WF r = true) (hne : NonEmptyChunks chunks)
     (hflat : chunks.flatten = rs.flatMap Spec.enc) :
-    sessionA (fuel + 1 + rs.length) 0 [] chunks term = rs.map viewItem ++ [termItem term .initial []] := by
+    sessionA (fuel + 1 + rs.length) 0 .initial [] chunks term = rs.map viewItem ++ [termItem term .initial []] := by
   rw [C02.C02_async _ [] chunks term hne, List.nil_append, hflat]
   have := C03_stream (fuel + 1) rs [] term hwf
   rw [List.append_nil] at this
@@ -346,7 +346,7 @@ theorem C03_async (fuel : Nat) (rs : List Spec.AbsResp) (chunks : List Bytes) (t
 theorem C03_sync (fuel : Nat) (rs : List Spec.AbsResp) (chunks : List Bytes) (term : Term)
     (hwf : ∀ r ∈ rs, Spec.WF r = true) (hne : NonEmptyChunks chunks)
     (hflat : chunks.flatten = rs.flatMap Spec.enc) :
-    sessionS (fuel + 1 + rs.length) 0 { cap := DEFAULT_CAP, data := [] } chunks term =
+    sessionS (fuel + 1 + rs.length) 0 .initial { cap := DEFAULT_CAP, data := [] } chunks term =
       rs.map viewItem ++ [termItem term .initial []] := by
   rw [C02.C02_sync _ _ chunks term hne C02.fresh_inv, List.nil_append, hflat]
   have := C03_stream (fuel + 1) rs [] term hwf
